@@ -4,6 +4,15 @@ import facts as F
 
 
 def method(fx, self_contains, name, krate="proguard", trait=None):
+    out = _method(fx, self_contains, name, krate, trait)
+    if not out and self_contains == CACHE and trait is None and name in ("get_class", "get_class_members", "get_class_members_by_params",
+                                                                         "find_range_by_binary_search"):
+        import roles
+        out = roles.cache_helper(fx, name)
+    return out
+
+
+def _method(fx, self_contains, name, krate="proguard", trait=None):
     out = []
     for p, b in fx.bodies.items():
         if b["krate"] != krate or b["kind"] != "AssocFn" or b.get("name") != name:
@@ -19,8 +28,13 @@ def method(fx, self_contains, name, krate="proguard", trait=None):
 
 
 def func(fx, module, name, krate="proguard"):
+    """a private free function: by name where it still exists, otherwise by role (signature + structural trait)"""
     want = "%s::%s::%s" % (krate, module, name)
-    return [p for p, b in fx.bodies.items() if p == want and b["kind"] == "Fn"]
+    r = [p for p, b in fx.bodies.items() if p == want and b["kind"] == "Fn"]
+    if not r and krate == "proguard":
+        import roles
+        r = roles.resolve(fx, module, name)
+    return r
 
 
 def one(rep, rule, what, cands):
